@@ -7,6 +7,7 @@ import (
 	"encoding/binary"
 	"encoding/json"
 	"fmt"
+	"os"
 	"runtime"
 	"sort"
 	"strings"
@@ -14,9 +15,12 @@ import (
 	"sync/atomic"
 	"time"
 
+	"github.com/brewlin/net-protocol/pkg/waiter"
 	tcpip "github.com/brewlin/net-protocol/protocol"
 	"github.com/brewlin/net-protocol/protocol/application/http"
 	"github.com/brewlin/net-protocol/protocol/application/websocket"
+	"github.com/brewlin/net-protocol/protocol/network/ipv4"
+	"github.com/brewlin/net-protocol/protocol/transport/tcp"
 	tcpclient "github.com/brewlin/net-protocol/protocol/transport/tcp/client"
 
 	"verif/engine"
@@ -68,19 +72,42 @@ type c20Gate struct {
 	mu      sync.Mutex
 	idx     int
 	policy  []int
-	pending chan struct{}
-	need    int
-	at      int64
+	epoch   int64
+	pending []*c20Waiter
 }
 
-func (g *c20Gate) reset(policy []int) {
-	g.mu.Lock()
-	g.idx, g.policy, g.pending = 0, policy, nil
-	g.mu.Unlock()
+type c20Waiter struct {
+	ch   chan struct{}
+	need int
+	at   int64
 }
 
-func (g *c20Gate) pass() {
+// reset starts a new exchange: goroutines left over from an earlier exchange (a handler
+// still waiting for its close frame) pass freely and do not consume this exchange's policy.
+func (g *c20Gate) reset(policy []int) int64 {
 	g.mu.Lock()
+	defer g.mu.Unlock()
+	g.epoch++
+	g.idx, g.policy = 0, policy
+	for _, w := range g.pending {
+		close(w.ch)
+	}
+	g.pending = nil
+	return g.epoch
+}
+
+func (g *c20Gate) current() int64 {
+	g.mu.Lock()
+	defer g.mu.Unlock()
+	return g.epoch
+}
+
+func (g *c20Gate) pass(epoch int64) {
+	g.mu.Lock()
+	if epoch != g.epoch {
+		g.mu.Unlock()
+		return
+	}
 	i := g.idx
 	g.idx++
 	mode := 0
@@ -91,25 +118,28 @@ func (g *c20Gate) pass() {
 		g.mu.Unlock()
 		return
 	}
-	ch := make(chan struct{})
-	g.pending, g.need, g.at = ch, mode, atomic.LoadInt64(&c20Delivered)
+	w := &c20Waiter{ch: make(chan struct{}), need: mode, at: atomic.LoadInt64(&c20Delivered)}
+	g.pending = append(g.pending, w)
 	g.mu.Unlock()
-	<-ch
+	<-w.ch
 }
 
-// due releases the gate if its condition holds (idle = nothing else can move).
+// due releases the waiters whose condition holds (idle = nothing else can move).
 func (g *c20Gate) due(idle bool) bool {
 	g.mu.Lock()
 	defer g.mu.Unlock()
-	if g.pending == nil {
-		return false
+	released := false
+	keep := g.pending[:0]
+	for _, w := range g.pending {
+		if idle || (w.need > 0 && atomic.LoadInt64(&c20Delivered)-w.at >= int64(w.need)) {
+			close(w.ch)
+			released = true
+		} else {
+			keep = append(keep, w)
+		}
 	}
-	if idle || (g.need > 0 && atomic.LoadInt64(&c20Delivered)-g.at >= int64(g.need)) {
-		close(g.pending)
-		g.pending = nil
-		return true
-	}
-	return false
+	g.pending = keep
+	return released
 }
 
 var (
@@ -158,11 +188,12 @@ func c20RegisterHandlers(srv *http.Server) {
 			push := c20WSPush
 			n := c20WSEcho
 			c20Mu.Unlock()
+			ep := c20SGate.current()
 			for _, m := range push {
 				c.SendData(m)
 			}
 			for i := 0; i < n; i++ {
-				c20SGate.pass()
+				c20SGate.pass(ep)
 				d, err := c.ReadData()
 				if err != nil {
 					return
@@ -172,7 +203,7 @@ func c20RegisterHandlers(srv *http.Server) {
 				c20Mu.Unlock()
 				c.SendData(d)
 			}
-			c20SGate.pass()
+			c20SGate.pass(ep)
 			c.ReadData() // wait for the close frame
 		})
 	})
@@ -360,7 +391,7 @@ func clipS(s string) string {
 
 // ---------- WebSocket ----------
 
-func c20Accept(key string) string {
+func c20AcceptKey(key string) string {
 	h := sha1.New()
 	h.Write([]byte(key))
 	h.Write([]byte("258EAFA5-E914-47DA-95CA-C5AB0DC85B11"))
@@ -463,7 +494,7 @@ func (c *c20World) doWS(q c20WS) *c20Fail {
 		name += fmt.Sprintf(" pipelined=%v burst=%d server-gates=%v client-gates=%v", q.Pipeline, q.Burst, q.SGate, q.CGate)
 	}
 	c20SGate.reset(q.SGate)
-	c20CGate.reset(q.CGate)
+	cep := c20CGate.reset(q.CGate)
 	c.upgradeCoalesced = false
 	c.burst = 1
 	if q.Burst > 0 {
@@ -506,7 +537,7 @@ func (c *c20World) doWS(q c20WS) *c20Fail {
 				return
 			}
 			for i, p := range pushes {
-				c20CGate.pass()
+				c20CGate.pass(cep)
 				got, err := cl.Recv()
 				if err != nil || got != string(p) {
 					fail = &c20Fail{"ws-push", name + fmt.Sprintf(": pushed message %d (%d bytes) received as %q (%v)", i, len(p), clipS(got), err)}
@@ -528,7 +559,7 @@ func (c *c20World) doWS(q c20WS) *c20Fail {
 						return
 					}
 				}
-				c20CGate.pass()
+				c20CGate.pass(cep)
 				got, err := cl.Recv()
 				if err != nil || got != string(m) {
 					fail = &c20Fail{"ws-echo", name + fmt.Sprintf(": message %d (%d bytes) came back as %q (%v)", i, len(m), clipS(got), err)}
@@ -579,8 +610,8 @@ func (c *c20World) doWS(q c20WS) *c20Fail {
 				acc = strings.TrimPrefix(l, "Sec-WebSocket-Accept: ")
 			}
 		}
-		if acc != c20Accept(q.WSKey) {
-			fail = &c20Fail{"ws-accept-key", name + fmt.Sprintf(": Sec-WebSocket-Accept is %q, RFC 6455 value for key %q is %q", acc, q.WSKey, c20Accept(q.WSKey))}
+		if acc != c20AcceptKey(q.WSKey) {
+			fail = &c20Fail{"ws-accept-key", name + fmt.Sprintf(": Sec-WebSocket-Accept is %q, RFC 6455 value for key %q is %q", acc, q.WSKey, c20AcceptKey(q.WSKey))}
 			return
 		}
 		next := func() ([]byte, *c20Fail) {
@@ -599,7 +630,7 @@ func (c *c20World) doWS(q c20WS) *c20Fail {
 			}
 		}
 		for k, p := range pushes {
-			c20CGate.pass()
+			c20CGate.pass(cep)
 			got, f := next()
 			if f != nil {
 				fail = f
@@ -621,7 +652,7 @@ func (c *c20World) doWS(q c20WS) *c20Fail {
 			if !q.Pipeline {
 				t.Write(wsFrame(m, true, key, 1))
 			}
-			c20CGate.pass()
+			c20CGate.pass(cep)
 			got, f := next()
 			if f != nil {
 				fail = f
@@ -652,6 +683,11 @@ func (c *c20World) doWS(q c20WS) *c20Fail {
 		return f
 	}
 	if !c.pump(finished) {
+		if os.Getenv("C20_DEBUG") != "" && !(!q.Masked && len(q.Push) > 0 && c.upgradeCoalesced) {
+			buf := make([]byte, 1<<20)
+			n := runtime.Stack(buf, true)
+			fmt.Fprintf(os.Stderr, "C20 STUCK %s\ninflight=%d pendingTimers=%v\n%s\n", name, len(c.w.InFlight()), vtime.Pending(), buf[:n])
+		}
 		return swallowed(&c20Fail{"ws-stuck", name + ": the exchange never completed (world idle)"})
 	}
 	c.pump(func() bool { return false })
@@ -672,10 +708,110 @@ func (c *c20World) doWS(q c20WS) *c20Fail {
 	return nil
 }
 
+// ---------- accept timing ----------
+
+type c20AcceptCase struct {
+	Late bool // the request is queued before Accept and the connection's protocol goroutine runs before the application creates its server socket
+	Len  int
+}
+
+var c20AcceptPort = 8100
+
+func (c *c20World) doAccept(q c20AcceptCase) *c20Fail {
+	name := fmt.Sprintf("server socket created after the request arrived=%v, request of %d bytes", q.Late, q.Len)
+	c20AcceptPort++
+	port := c20AcceptPort
+	var wq waiter.Queue
+	lep, e := c.n.S.NewEndpoint(tcp.ProtocolNumber, ipv4.ProtocolNumber, &wq)
+	if e != nil {
+		return &c20Fail{"harness", e.String()}
+	}
+	defer lep.Close()
+	if e := lep.Bind(tcpip.FullAddress{Port: uint16(port)}, nil); e != nil {
+		return &c20Fail{"harness", e.String()}
+	}
+	if e := lep.Listen(4); e != nil {
+		return &c20Fail{"harness", e.String()}
+	}
+	req := []byte(c20Body(q.Len, port))
+	t := tcpclient.NewClient("10.0.0.1", port)
+	connected := make(chan error, 1)
+	go func() { connected <- t.Connect() }()
+	var cerr error
+	got := false
+	c.pump(func() bool {
+		select {
+		case cerr = <-connected:
+			got = true
+		default:
+		}
+		return got
+	})
+	if !got || cerr != nil {
+		return &c20Fail{"accept-connect", name + fmt.Sprintf(": client could not connect (%v)", cerr)}
+	}
+	idle := func() { c.pump(func() bool { return false }) }
+	idle()
+	accept := func() (*http.Connection, *c20Fail) {
+		n, nq, err := lep.Accept()
+		if err != nil {
+			return nil, &c20Fail{"accept-none", name + ": the established connection is not in the accept queue: " + err.String()}
+		}
+		if q.Late {
+			// Accept starts the connection's protocol goroutine, which now processes what was
+			// queued and notifies the (still empty) wait queue; the bundled server creates its
+			// socket in yet another goroutine, so either may come first - here: this one
+			c.w.Settle()
+		}
+		return http.NewCon(http.NewServerSocket(n, nq)), nil
+	}
+	var con *http.Connection
+	var f *c20Fail
+	if q.Late {
+		t.Write(req)
+		idle() // the segment is delivered, queued at the accepted endpoint and acknowledged
+		if con, f = accept(); f != nil {
+			return f
+		}
+	} else {
+		if con, f = accept(); f != nil {
+			return f
+		}
+	}
+	defer con.Close()
+	var data []byte
+	fin := make(chan struct{})
+	go func() {
+		defer close(fin)
+		data, _ = con.Read()
+	}()
+	if !q.Late {
+		c.w.Settle()
+		t.Write(req)
+	}
+	done := c.pump(func() bool {
+		select {
+		case <-fin:
+			return true
+		default:
+			return false
+		}
+	})
+	t.Close()
+	idle()
+	if !done {
+		return &c20Fail{"request-never-read", name + ": the request is queued at the connection but the server socket's Read never returns (world idle): the data arrived before the socket registered for events and nothing tells it"}
+	}
+	if !bytes.Equal(data, req) {
+		return &c20Fail{"accept-bytes", name + fmt.Sprintf(": server read %q, client sent %q", clipS(string(data)), clipS(string(req)))}
+	}
+	return nil
+}
+
 // ---------- jobs ----------
 
 func c20Jobs(tier string) []string {
-	jobs := []string{"http-seq", "ws-key", "ws-seq"}
+	jobs := []string{"http-seq", "http-accept", "ws-key", "ws-seq"}
 	for _, m := range []string{"GET", "HEAD", "POST", "PUT"} {
 		jobs = append(jobs, "http:"+m)
 	}
@@ -753,6 +889,18 @@ func c20Run(job, tier string, deadline time.Time) *engine.Result {
 			}
 		}
 		r.Sample(map[string]interface{}{"method": parts[1], "paths": 4, "header_subsets": 16, "bodies": bodies})
+	case "http-accept":
+		// the server application accepts and registers for events before / after the request
+		// has arrived (the bundled accept loop does the same two steps in a goroutine of its own)
+		for _, late := range []bool{false, true} {
+			for _, n := range []int{1, 100, 1400} {
+				q := c20AcceptCase{Late: late, Len: n}
+				if report(c.doAccept(q), map[string]interface{}{"accept": q}) {
+					return r
+				}
+			}
+		}
+		r.Sample(map[string]interface{}{"accept_timing": "server socket created {before, after} the request segment was processed x request sizes {1,100,1400}"})
 	case "http-seq":
 		reqs := []c20Req{{"GET", "/a", nil, 0}, {"POST", "/echo", []int{0}, 10}, {"PUT", "/nope", nil, 3}, {"HEAD", "/b/c", []int{1, 2}, 0}}
 		idx := 1000
@@ -891,8 +1039,9 @@ func c20Run(job, tier string, deadline time.Time) *engine.Result {
 
 func c20Replay(rp json.RawMessage) *engine.Violation {
 	var p struct {
-		HTTP []c20Req `json:"http"`
-		WS   *c20WS   `json:"ws"`
+		HTTP   []c20Req   `json:"http"`
+		WS     *c20WS     `json:"ws"`
+		Accept *c20AcceptCase `json:"accept"`
 	}
 	if json.Unmarshal(rp, &p) != nil {
 		return nil
@@ -907,6 +1056,9 @@ func c20Replay(rp json.RawMessage) *engine.Violation {
 	}
 	if p.WS != nil {
 		f = c.doWS(*p.WS)
+	}
+	if p.Accept != nil {
+		f = c.doAccept(*p.Accept)
 	}
 	if f == nil {
 		return nil
